@@ -287,6 +287,24 @@ def adjudicate_signature(check, low, ob, f, canon, T):
         elif f.kind == 'method' and f.ret == ('void',):
             call = 'alignas(16) unsigned char buf[sizeof(%s)] = {}; %s& q = *reinterpret_cast<%s*>(buf); q.%s(%s); const %s* p = reinterpret_cast<const %s*>(buf);' % (
                 cpp_t, cpp_t, cpp_t, nm, ', '.join(args), T, T)
+        elif f.kind == 'method' and not args and f.ret[0] == 'f':
+            # a getter: fill the object with values only T can hold and look for the returned value among the stored components
+            call = ('alignas(16) unsigned char buf[sizeof(%s)] = {}; %s* raw = reinterpret_cast<%s*>(buf); for (int i = 0; i < %d; ++i) raw[i] = (static_cast<%s>(i + 1)) / static_cast<%s>(7); '
+                    '%s& q = *reinterpret_cast<%s*>(buf); const %s got = q.%s(); const %s* p = raw; const %s v_ = got; (void)v_;') % (
+                        cpp_t, T, T, n, T, T, cpp_t, cpp_t, T, nm, T, T)
+            cpp = (includes(default_includes(low, f)) + '#include <cstdio>\nint main() {\n  %s\n'
+                   '  bool found = false; for (int i = 0; i < %d; ++i) found = found || p[i] == got;\n'
+                   '  if (!found) { std::printf("MISMATCH %s returns %%.21Lg, which is none of the stored %s components (e.g. %%.21Lg)\\n", (long double)got, (long double)p[%d]); return 1; }\n  return 0;\n}\n') % (
+                       call, n, f.qualname.replace('"', ''), T, n - 1)
+            r, err = replay.build_and_run(cpp, os.path.join(check.work, 'replay'), 'r_' + re.sub(r'\W+', '_', ob.name)[:120])
+            if err:
+                rec['replay_error'] = err[:600]
+            else:
+                rec['cpp'], rec['native_output'] = cpp, r.stdout
+                if 'MISMATCH' in r.stdout:
+                    rec['confirmed'], rec['mismatch'], rec['inputs'] = True, [r.stdout.strip()], {'stored components': 'i/7 in ' + T}
+            check.violations.append((ob, write_replay(check, ob, rec), '' if rec['confirmed'] else 'no-failing-input-found'))
+            return
         else:
             raise Unsupported('replay of %s' % f.qualname)
         cpp = (includes(default_includes(low, f)) + '#include <cstdio>\nint main() {\n  const %s v = static_cast<%s>(1) / static_cast<%s>(3);\n  %s\n'
